@@ -28,7 +28,11 @@ impl<A: Actor> Spawner<A> for SmolSpawner {
                 if let Some(handle) = handle.take() {
                     // TODO: don't eat the error
 
-                    let actor = handle.await.ok();
+                    // awaiting a task that panicked panics in the awaiter: report it as `None`
+                    let actor = futures::FutureExt::catch_unwind(std::panic::AssertUnwindSafe(handle))
+                        .await
+                        .ok()
+                        .and_then(Result::ok);
                     log::trace!("smol task completed");
                     actor
                 } else {
